@@ -2,3 +2,7 @@
 pub mod types;
 pub mod grammar;
 pub mod matrix;
+pub mod ast;
+pub mod case;
+pub mod prog;
+pub mod refi;
